@@ -8,14 +8,14 @@ CONSTANTS
  KeepN = 1
  MaxEp = 7
  MaxSid = 4
- WithReader = FALSE
- WithCopy = TRUE
+ WithReader = TRUE
+ WithCopy = FALSE
  WithMerger = TRUE
  WithPurge = TRUE
  WithMemMerge = FALSE
  MaxMergeInputs = 2
  AsyncRelease = FALSE
 CONSTRAINT Bound
-INVARIANTS RootIsReplay HeldAreReplays BoltFilesOnDisk RootFilesOnDisk CopyFilesOnDisk CopyIsPrefix
+INVARIANTS ReaderFilesOnDisk
 PROPERTIES LayoutStutters ReaderStable
 CHECK_DEADLOCK FALSE
